@@ -122,3 +122,68 @@ theorem parseBools_formatBools (bs : List Bool) : (bs.map formatBoolGo).mapM par
   | cons b t ih => simp only [List.map_cons, List.mapM_cons, parseBool_formatBool, ih]; rfl
 
 end Goag.Prim
+
+namespace Goag.Prim
+
+/-! ### the second sentence of C09 at the leaves: what the client writes for an integer / boolean
+    parameter is in the lexical space a validator accepts for `type: integer` / `type: boolean`
+    (optional minus sign and at least one decimal digit, no plus sign, no blanks; `true` / `false`).
+    Whether the whole request is valid for the operation is judged per run by an OpenAPI request
+    validator that is not goag's (kin-openapi's openapi3filter, see the check). -/
+
+def isIntegerLexeme (s : Str) : Bool :=
+  match s with
+  | '-' :: ds => !ds.isEmpty && ds.all (fun c => decide ('0' ≤ c ∧ c ≤ '9'))
+  | ds => !ds.isEmpty && ds.all (fun c => decide ('0' ≤ c ∧ c ≤ '9'))
+
+theorem digitsVal_all_digits (cs : List Char) : ∀ (acc n : Nat), digitsVal cs acc = some n →
+    cs.all (fun c => decide ('0' ≤ c ∧ c ≤ '9')) = true := by
+  induction cs with
+  | nil => intro _ _ _; rfl
+  | cons c rest ih =>
+    intro acc n h
+    simp only [digitsVal] at h
+    cases hd : digitVal c with
+    | none => simp [hd] at h
+    | some d =>
+      simp only [hd] at h
+      have hc : ('0' ≤ c ∧ c ≤ '9') := by
+        unfold digitVal at hd
+        by_cases hcc : '0' ≤ c ∧ c ≤ '9'
+        · exact hcc
+        · simp [hcc] at hd
+      simp only [List.all_cons, Bool.and_eq_true, decide_eq_true_eq]
+      exact ⟨hc, ih _ n h⟩
+
+theorem formatInt_lexeme (v : Int) : isIntegerLexeme (formatIntGo v) = true := by
+  unfold formatIntGo natDigits
+  obtain ⟨c, r, hcr, hplus, hminus⟩ := head_digit_not_sign v.natAbs
+  have hall := digitsVal_all_digits _ 0 _ (digitsVal_toDigits v.natAbs)
+  have hne : (Nat.toDigits 10 v.natAbs).isEmpty = false := by rw [hcr]; rfl
+  by_cases hneg : v < 0
+  · simp only [hneg, if_true, isIntegerLexeme, hne, Bool.not_false, Bool.true_and]
+    exact hall
+  · simp only [hneg, if_false]
+    rw [hcr] at hall hne ⊢
+    unfold isIntegerLexeme
+    split
+    · rename_i ds heq
+      simp only [List.cons.injEq] at heq
+      exact absurd heq.1 hminus
+    · simp only [List.isEmpty_cons, Bool.not_false, Bool.true_and]
+      exact hall
+
+theorem formatBool_lexeme (b : Bool) : formatBoolGo b = "true".toList ∨ formatBoolGo b = "false".toList := by
+  cases b <;> simp [formatBoolGo]
+
+/-- arrays: every element the client writes is an integer lexeme -/
+theorem formatInts_lexemes (vs : List Int) : (vs.map formatIntGo).all isIntegerLexeme = true := by
+  induction vs with
+  | nil => rfl
+  | cons v t ih => simp only [List.map_cons, List.all_cons, formatInt_lexeme, ih, Bool.and_self]
+
+example : isIntegerLexeme (formatIntGo (-9223372036854775808)) = true := by decide
+example : isIntegerLexeme " 42".toList = false := by decide
+example : isIntegerLexeme "+5".toList = false := by decide
+
+end Goag.Prim
